@@ -626,14 +626,31 @@ def run_world(item: dict) -> dict:
         rt = forkrun(_lib_compile_text, r2["stdout"], timeout=120)
         res["processes"] += 1
         if "raised" in rt:
-            viol("hand-off-yields-a-program-like-the-source", "printed-text-does-not-compile", {**base2, "raised": rt["raised"], "msg": rt.get("msg", "")[:200]})
+            import re as _re
+
+            reason = rt["raised"] + ": " + _re.sub(r"\d+", "N", rt.get("msg", ""))[:40]
+            res["violations"].append({"sig": {"clause": "hand-off-yields-a-program-like-the-source", "kind": "printed-text-does-not-compile", "reason": reason},
+                                      "payload": {**base2, "raised": rt["raised"], "msg": rt.get("msg", "")[:200]}})
         else:
+            from collections import Counter as _C
+
             a_, b_ = effect_ops(lib["ok"]["routines"]), effect_ops(rt["ok"]["routines"])
-            if a_ != b_:
-                only_src = [x for x in a_ if x not in b_][:3]
-                only_rt = [x for x in b_ if x not in a_][:3]
+            lost = _C(a_) - _C(b_)
+            gained = _C(b_) - _C(a_)
+            if lost:
+                # an op that does something is gone, or came back with other parameters
                 viol("hand-off-yields-a-program-like-the-source", "effect-ops-differ",
-                     {**base2, "only_in_compiled_source": only_src, "only_after_round_trip": only_rt, "counts": [len(a_), len(b_)]})
+                     {**base2, "only_in_compiled_source": sorted(lost)[:3], "only_after_round_trip": sorted(gained)[:3], "counts": [len(a_), len(b_)]})
+            elif gained:
+                # every op is still there and some occur more often. For the small fixed programs (templates, special
+                # programs: the regression stimuli of repaired defects) the counts are known to be equal on a correct tree
+                # and any difference is reported; for generated programs a structuring pass may legitimately print a shared
+                # block twice, so this is counted, not judged
+                if w["kind"] in ("template", "jumpy"):
+                    viol("hand-off-yields-a-program-like-the-source", "effect-ops-differ",
+                         {**base2, "only_in_compiled_source": [], "only_after_round_trip": sorted(gained)[:3], "counts": [len(a_), len(b_)]})
+                else:
+                    res["effect_ops_only_duplicated"] = res.get("effect_ops_only_duplicated", 0) + 1
         # the text printed is what the library gives for the decoded routine set
         dec = copy.deepcopy(r2["decoded"])
         for i, rr in enumerate(dec["routines"]):
@@ -925,6 +942,7 @@ def check(rep, tier: str, master: int, only_idx=None) -> None:
         kinds[r["kind"].split(":")[0]] = kinds.get(r["kind"].split(":")[0], 0) + 1
         agg["slow_decompile_skipped"] = agg.get("slow_decompile_skipped", 0) + r.get("slow_decompile_skipped", 0)
         agg["handoff_through_pipe"] = agg.get("handoff_through_pipe", 0) + r.get("handoff_through_pipe", 0)
+        agg["effect_ops_only_duplicated"] = agg.get("effect_ops_only_duplicated", 0) + r.get("effect_ops_only_duplicated", 0)
         agg["undeliverable_on_legacy_stdout"] = agg.get("undeliverable_on_legacy_stdout", 0) + r.get("undeliverable_on_legacy_stdout", 0)
         for k_, v_ in (r.get("stdout_encodings") or {}).items():
             agg.setdefault("stdout_encodings", {})
